@@ -16,9 +16,10 @@ def evsOf (l : Line) : List _root_.C08.Ev :=
   match str l "op" with
   | "issue" => [.issued (tokOf l (str l "label") false)] ++ (if str l "rtlabel" != "" then [.issued (tokOf l (str l "rtlabel") true)] else [])
   | "expire" => [.expired (str l "label")]
-  | "userinfo" => [.userinfo (str l "iss") (str l "tok") (nat l "o.status") (opt l "o.sub")]
+  | "userinfo" => [.userinfo (str l "iss") (str l "tok") (nat l "o.status") (opt l "o.sub") ((opt l "o.sub").isSome || list l "o.claims" != [])]
   | "introspect" => [.introspect (str l "iss") (presented l) (str l "tok") (nat l "o.status") (bool l "o.active") (list l "o.members")]
-  | "revoke" => [.revoke (str l "iss") (presented l) (str l "tok") (nat l "o.status") (bool l "o.performed") (str l "fault" != "") (!(has l "o.effect") || bool l "o.effect")]
+  | "revoke" => [.revoke (str l "iss") (presented l) (str l "tok") (nat l "o.status") (bool l "o.performed") (str l "fault" != "") (!(has l "o.effect") || bool l "o.effect")
+                  (!(has l "o.usable") || bool l "o.usable")]
   | "endsession" => [.endSession (str l "iss") (str l "sub") (str l "client") (nat l "o.status") (bool l "o.terminated")]
   | "exchange" => [.exchange (str l "iss") (str l "tok") (bool l "o.success") (has l "atok") (str l "atok")]
   | "refresh" => [.refresh (str l "iss") (str l "tok") (bool l "o.success") (bool l "o.rotated")]
